@@ -1,7 +1,7 @@
 import Tmv.Lemmas.LightReach
 namespace Tmv.Light
 
-theorem verifyLightBlock_inv {cfg : Config} {root : Hash} {c : Client} {new : LightBlock} {now : Int}
+theorem verifyLightBlock_inv {cfg : Config} {root : Hash → Prop} {c : Client} {new : LightBlock} {now : Int}
     {c' : Client} {r : Except Err Unit} (h : Inv cfg root c)
     (e : verifyLightBlock c new now = (c', r)) : Inv cfg root c' := by
   unfold verifyLightBlock at e
@@ -51,7 +51,7 @@ theorem verifyLightBlock_inv {cfg : Config} {root : Hash} {c : Client} {new : Li
       exact updateTrusted_inv hi1 (key.2 rfl)
 
 
-theorem verifyLightBlockAtHeight_inv {cfg : Config} {root : Hash} {c : Client} {height now : Int}
+theorem verifyLightBlockAtHeight_inv {cfg : Config} {root : Hash → Prop} {c : Client} {height now : Int}
     {c' : Client} {r : Except Err LightBlock} (h : Inv cfg root c)
     (e : verifyLightBlockAtHeight c height now = (c', r)) : Inv cfg root c' := by
   unfold verifyLightBlockAtHeight at e
@@ -74,7 +74,7 @@ theorem verifyLightBlockAtHeight_inv {cfg : Config} {root : Hash} {c : Client} {
           obtain ⟨rfl, _⟩ := Prod.mk.inj e
           exact verifyLightBlock_inv h1 hv
 
-theorem update_inv {cfg : Config} {root : Hash} {c : Client} {now : Int}
+theorem update_inv {cfg : Config} {root : Hash → Prop} {c : Client} {now : Int}
     {c' : Client} {r : Except Err (Option LightBlock)} (h : Inv cfg root c)
     (e : update c now = (c', r)) : Inv cfg root c' := by
   unfold update at e
@@ -127,7 +127,7 @@ theorem compareFirst_same {c : Client} {h : LightBlock} {c' : Client} {r : Excep
 
 theorem newClient_inv {cfg : Config} {primary : Prov} {witnesses : List Prov}
     {sched : List Prov → List Nat} {period height : Int} {root : Hash} {c : Client}
-    (e : newClient cfg primary witnesses sched period height root = .ok c) : Inv cfg root c := by
+    (e : newClient cfg primary witnesses sched period height root = .ok c) : Inv cfg (· = root) c := by
   unfold newClient at e
   split at e
   · cases e
@@ -156,7 +156,7 @@ theorem newClient_inv {cfg : Config} {primary : Prov} {witnesses : List Prov}
                     have hs2 := compareFirst_same hc
                     injection e with e
                     subst e
-                    have hi0 : Inv cfg root c2 := by
+                    have hi0 : Inv cfg (· = root) c2 := by
                       have hs := hs1.trans hs2
                       refine ⟨hs.1, ?_, ?_⟩
                       · rw [hs.2.1]; intro b hb; simp at hb
